@@ -31,7 +31,9 @@ var intrinsicDoc = map[string]string{
 	"(encoding/binary.bigEndian).PutUint64": "writes the big-endian bytes of v to b[0:8]; panics if len(b) < 8",
 	"crypto/subtle.ConstantTimeSelect":      "v==1 ? x : y for v in {0,1}",
 	"crypto/subtle.ConstantTimeByteEq":      "1 iff x == y",
+	"foreign interface method":              "a method of an interface value whose dynamic type is not a type of this module reads and writes no memory of this module (its objects are unexported or passed by value); its scalar result is arbitrary",
 	"errors.New":                            "returns a fresh non-nil error",
+	"crypto/rand.Reader":                    "the package variable is a non-nil reader after the standard library's initialisation and nobody reassigns it",
 	"fmt.Errorf":                            "returns a fresh non-nil error",
 }
 
